@@ -65,6 +65,8 @@ def collect_merge(res: CheckResult, repo: str, want=lambda cname: True) -> Dict[
         if not r.get('ok'):
             if want(cname):
                 res.error(r.get('error', f'{cname}: analysis failed'))
+                if r.get('partial'):
+                    ok[cname] = r        # findings made before the breakdown are still reported
             else:
                 res.extra.setdefault('unanalysed_classes_outside_scope', []).append(cname)
         else:
@@ -159,6 +161,7 @@ def order_property(prop: str, lvl: str, repo: str, tier: str) -> CheckResult:
         add_sites(res, {c: r for c, r in results.items() if want_c(c)}, 'item-lookup', 'STORY-SCOPED')
         add_findings(res, results, {'STORY-SCOPED'}, want)
     summary_obligations(res, results)
+    stale_cache(res, repo, merges=True)
     res.floors = {'IDX': 8 if lvl == 'story' else 5, 'SEARCH-SUMMARY': 1, 'CONSERVE': 4}
     what = 'story' if lvl == 'story' else 'item'
     res.explanation = (
@@ -192,6 +195,7 @@ def prop_C03(repo, tier):
     add_sites(res, results, 'meta-replace', 'META-SCHEMA')
     add_findings(res, results, {'FRAME', 'WILDCARD', 'ID-FALLBACK', 'META-SCHEMA', 'STORY-SCOPED', 'UNMODELLED-MUTATION'},
                  as_rule=lambda f: 'FRAME' if f['rule'] == 'UNMODELLED-MUTATION' else f['rule'])
+    stale_cache(res, repo, merges=True)
     res.floors = {'FRAME': 22, 'WILDCARD': 22, 'META-SCHEMA': 1}
     res.explanation = (
         'Static analysis of all merge methods: FRAME (who may be mutated, from the effect traces and the role table), WILDCARD '
@@ -287,6 +291,7 @@ def prop_C06(repo, tier):
         res.add('NO-EARLY-EXIT', f'{cname}.merge', 'loops over named elements', True)
     add_findings(res, results, {'MISS-REPORTED', 'WARN-CATEGORY', 'SILENT-SUCCESS', 'NO-EARLY-EXIT'})
     add_findings(res, results, {'LIVE-ITER'}, as_rule=lambda f: 'NO-EARLY-EXIT')
+    stale_cache(res, repo, merges=True)
     res.floors = {'MISS-REPORTED': 22, 'WARN-CATEGORY': 5}
     res.explanation = (
         'Static analysis of every merge: each id-keyed lookup miss (and each duplicate-story test) creates a pending report that must '
